@@ -17,6 +17,11 @@ a wrong key, or tampered), and after every put compares with the model: the PUT 
 for every key x name x type (under the configured origin and under the root origin).  Record values
 encode signer, timestamp and value id, so an answer record is attributed to the packet it came from.
 
+Adversary added after an independently seeded change went unnoticed (a "known packet" fast path in the PUT handler
+that skips verification when signature + timestamp equal the stored packet's): PutReplaySig - the stored packet's
+signature and timestamp over a byte-wise smaller / greater payload; every honest-publish-then-replay pair of the
+thematic universe is generated exhaustively (C36_replay.cfg) and replay puts also occur in the simulated behaviours.
+
 Mutation self-test (done while building, /var/tmp/mut-c36.diff, undone afterwards): in util.rs
 `signed_packet_to_hickory_records_without_origin` the `zone != common_zone` filter disabled
 -> VIOLATION (kind "DNS answer", ...: a record published under another zone label is served).
@@ -36,7 +41,7 @@ META = {
             "the real iroh_dns_server::Server on 127.0.0.1 and the PUT status, the stored packet of every key and the DNS answers for "
             "every key, name and type after every put must equal the model's.",
     "note": "Bounded: 2 keys; single puts exhaustively over every single record (thorough: also record pairs) x right/wrong signer x "
-            "intact/tampered signature; multi-step behaviours (3 puts, thorough 4) sampled with TLC -simulate from a thematic packet "
+            "intact/tampered signature; every (honest put, replayed-signature put) pair of the thematic universe; multi-step behaviours (3 puts, thorough 4) sampled with TLC -simulate from a thematic packet "
             "universe with distinct timestamps per key.  'Rejected' = HTTP 400.  Queries of type SOA / NS are answered by the server's "
             "static zone: only the absence of published records in them is checked.  hickory and axum are exercised, not modelled.",
     "design_ref": "§6 C36",
@@ -56,19 +61,24 @@ def run(ctx):
         execute(ctx, [rep], "replay")
         return
     ctx.tlc("dnsserver", "MC_DnsServer", cfg="C36_mc.cfg", mode="mc", constants={"Tss": "{1, 2}", "MaxSteps": 2},
-            require_actions=["PutRejected", "PutNoop", "PutUpdate", "Query"], timeout=3000, workers=ctx.pick(4, 8))
+            require_actions=["PutRejected", "PutReplaySig", "PutNoop", "PutUpdate", "Query"], timeout=3000, workers=ctx.pick(4, 8))
     table = ctx.tlc("dnsserver", "MC_DnsServer", cfg="C36_table.cfg", mode="gen", constants={"MaxRecs": ctx.pick(1, 2)},
                     require_actions=["PutRejected", "PutUpdate"], timeout=3000)
     sim = ctx.tlc("dnsserver", "MC_DnsServer", cfg="C36_sim.cfg", mode="sim", constants={"MaxSteps": ctx.pick(3, 4)},
                   sim=ctx.pick(150, 1500), depth=ctx.pick(4, 5), timeout=3000)
-    cases = dedupe(table.replays) + dedupe(sim.replays)
+    # honest publish, then the adversary's put that replays the stored signature + timestamp over another payload
+    replay = ctx.tlc("dnsserver", "MC_DnsServer", cfg="C36_replay.cfg", mode="gen", require_actions=["PutUpdate", "PutReplaySig"], timeout=3000)
+    rp = [c for c in dedupe(replay.replays) if c["steps"][-1]["signer"] == "replay"]
+    if not rp:
+        raise ToolError("generator produced no replayed-signature behaviour")
+    cases = dedupe(table.replays) + dedupe(sim.replays) + rp
     if len(cases) < 100:
         raise ToolError("generator produced only %d behaviours" % len(cases))
     execute(ctx, cases, "all")
     if not ctx.quick:
         selftest(ctx, [c for c in cases if c["steps"][-1]["res"] != "rejected"][:30], [c for c in cases if c["steps"][-1]["res"] == "rejected"][:10])
     ctx.cov["rule"] = ("single puts: every packet of the universe P36 under every path key (exhaustive); multi-step: TLC -simulate "
-                       "behaviours seeded from VERIF_SEED; non-trivial = wrong signer / tampered signature / foreign or out-of-zone "
+                       "behaviours seeded from VERIF_SEED; non-trivial = wrong signer / tampered or replayed signature / foreign or out-of-zone "
                        "record / SOA / NS record / noop")
     ctx.cov["exhaustive"] = False
     ctx.assume("UDP datagrams on 127.0.0.1 are not lost (a lost reply is a tool error after 20 s, never a violation)")
